@@ -28,7 +28,7 @@ from . import common, doecommon
 PROPERTY = 'C12'
 
 META = {
-    'bounds': {'quick': 'lhs() criteria center/maximin/centermaximin/correlation (N<=3, n<=3, <=2 candidates); LHS: N<=3 samples x 2 parameters (unit level and symbolic box); van der Corput digit law bases 2,3,5,7 with 8/6/5/4 digits; '
+    'bounds': {'quick': 'concrete van der Corput check around powers of the bases 2..17 up to 5000 (70000); lhs() criteria center/maximin/centermaximin/correlation (N<=3, n<=3, <=2 candidates); LHS: N<=3 samples x 2 parameters (unit level and symbolic box); van der Corput digit law bases 2,3,5,7 with 8/6/5/4 digits; '
                         'Halton generator 12 points x 3 parameters, 3 points x 5 and 6 parameters, unit sequence for every dimension 1..40; grid k in 2..3, n<=2; random generator 3 designs',
                'thorough': 'LHS N=4 x 2, N=3 x 3; digit law bases 2..13 with 10/7/6/5/4/4 digits; Halton 50 x 4, 3 x 5..8, unit sequence for every dimension 1..200; grid k<=4, n<=3'},
     'stubs': ['numpy RandomState.rand -> fresh reals in [0,1); RandomState.permutation -> symbolic permutation (forking)',
